@@ -467,6 +467,11 @@ func (fc *fnCtx) applySpec(st *State, fr *frame, site string, spec *effSpec, rec
 			}
 		}
 	}
+	if !spec.flags["noinv"] {
+		if g := fc.recvInvariant(st, recv); g != "" && g != "true" {
+			fc.emit(st, fc.oblName(fr, fmt.Sprintf("pre@%s.%s.inv", site, shortKey(spec.key))), "pre", "receiver satisfies its type invariant at the call", "", g, nil)
+		}
+	}
 	if spec.flags["mayblock"] {
 		fc.blockingCall(st, fr, site, spec, recv, args)
 	}
@@ -475,6 +480,11 @@ func (fc *fnCtx) applySpec(st *State, fr *frame, site string, spec *effSpec, rec
 	n := fc.declare(st, "now", "Int")
 	st.pc = append(st.pc, fmt.Sprintf("(>= %s %s)", n, st.now))
 	st.now = n
+	if !spec.flags["noinv"] {
+		if g := fc.recvInvariant(st, recv); g != "" && g != "true" {
+			st.pc = append(st.pc, g)
+		}
+	}
 	// exceptional outcome
 	if !spec.flags["nopanic"] && !xensuresFalse(spec) {
 		st2 := st.clone()
@@ -561,9 +571,11 @@ func (fc *fnCtx) havocLoc(st *State, sc *specCtx, loc Expr) {
 				havocAt(rn, rs, app("sl_arr", obj.T))
 				return
 			}
-			havocAt("M."+l.Fun, regionArraySort(sortByName(ms)), obj.T)
-			// the object may be one whose representation is known here: havoc the representation too
-			fc.havocRepresentation(st, sc, l.Fun, obj)
+			// an object of concrete type with a model clause: the model is derived from its
+			// representation, which is what changes; otherwise the abstract model field
+			if !fc.havocRepresentation(st, sc, l.Fun, obj) {
+				havocAt("M."+l.Fun, regionArraySort(sortByName(ms)), obj.T)
+			}
 			return
 		}
 		switch l.Fun {
@@ -612,20 +624,111 @@ func (fc *fnCtx) havocLoc(st *State, sc *specCtx, loc Expr) {
 
 // havocRepresentation: when a callee modifies model m of an object whose model is
 // defined by a type clause in terms of other state known in this function (a
-// tracked object), the underlying state is havocked as well.
-func (fc *fnCtx) havocRepresentation(st *State, sc *specCtx, model string, obj Val) {
-	for _, tr := range st.tracked {
-		if tr.ref != obj.T {
-			continue
-		}
-		// the tracked object's model is derived; havoc through its definition is not
-		// expressible in general: havoc all regions (sound, imprecise).
-		for r := range fc.regionSort {
-			if strings.HasPrefix(r, "F.") || strings.HasPrefix(r, "elems.") || strings.HasPrefix(r, "M.") {
-				fc.havocRegion(st, r)
+// tracked object), the state the clause mentions is havocked: the fields of the
+// object named in the clause and the models of the objects they hold.
+func (fc *fnCtx) havocRepresentation(st *State, sc *specCtx, model string, obj Val) bool {
+	named, ok := derefNamed(obj.GT)
+	if !ok {
+		return false
+	}
+	if _, isIface := named.Underlying().(*types.Interface); isIface {
+		return false
+	}
+	pkg := ""
+	if named.Obj().Pkg() != nil {
+		pkg = named.Obj().Pkg().Name()
+	}
+	ts := fc.e.contracts.Types[pkg+"."+named.Obj().Name()]
+	if ts == nil || ts.Models[model] == nil {
+		return false
+	}
+	havocAt := func(region, sort, o string) {
+		cur := fc.region(st, region, sort)
+		elemSort := sort[len("(Array U ") : len(sort)-1]
+		h := fc.declare(st, "hv", elemSort)
+		fc.setRegion(st, region, sort, store(cur, o, h))
+	}
+	stt, _ := named.Underlying().(*types.Struct)
+	var walk func(e Expr)
+	walk = func(e Expr) {
+		switch x := e.(type) {
+		case *FieldE:
+			if id, ok := x.X.(*Ident); ok && id.Name == "this" && stt != nil {
+				for i := 0; i < stt.NumFields(); i++ {
+					if f := stt.Field(i); f.Name() == x.Name {
+						havocAt(fieldRegion(named.Origin(), f.Name()), regionArraySort(sortOfType(f.Type())), obj.T)
+					}
+				}
+				return
 			}
+			walk(x.X)
+		case *CallE:
+			for _, a := range x.Args {
+				walk(a)
+			}
+			if ms, isModel := fc.e.contracts.Models[x.Fun]; isModel && len(x.Args) == 1 {
+				// evaluated after the fields were havocked: the (possibly new) inner object
+				n := &specCtx{fc: fc, st: st, heap: st.heap, now: st.now, vars: map[string]Val{"this": {T: obj.T, S: obj.S, GT: obj.GT}}, params: map[string]Val{}, pkg: pkg}
+				inner := n.eval(x.Args[0])
+				if inner.S == SSlice {
+					rn, rs := elemsRegion(SU)
+					havocAt(rn, rs, app("sl_arr", inner.T))
+				} else {
+					havocAt("M."+x.Fun, regionArraySort(sortByName(ms)), inner.T)
+				}
+			}
+		case *Binary:
+			walk(x.X)
+			walk(x.Y)
+		case *Unary:
+			walk(x.X)
+		case *IndexE:
+			walk(x.X)
+			walk(x.I)
 		}
 	}
+	walk(ts.Models[model].E)
+	return true
+}
+
+// recvInvariant returns the invariant of a receiver of concrete static type, if its type has one.
+func (fc *fnCtx) recvInvariant(st *State, recv *Val) string {
+	if recv == nil || recv.GT == nil {
+		return ""
+	}
+	named, ok := derefNamed(recv.GT)
+	if !ok {
+		return ""
+	}
+	if _, isIface := named.Underlying().(*types.Interface); isIface {
+		return ""
+	}
+	pkg := ""
+	if named.Obj().Pkg() != nil {
+		pkg = named.Obj().Pkg().Name()
+	}
+	ts := fc.e.contracts.Types[pkg+"."+named.Obj().Name()]
+	if ts == nil || len(ts.Invariants) == 0 {
+		return ""
+	}
+	sc := &specCtx{fc: fc, st: st, heap: st.heap, now: st.now, vars: map[string]Val{"this": *recv}, params: map[string]Val{}, pkg: pkg}
+	var parts []string
+	func() {
+		defer func() {
+			if r := recover(); r != nil {
+				if _, ok := r.(specError); ok {
+					parts = nil
+					return
+				}
+				panic(r)
+			}
+		}()
+		for _, inv := range ts.Invariants {
+			v := sc.eval(inv.E)
+			parts = append(parts, v.T)
+		}
+	}()
+	return and(parts...)
 }
 
 // builtins -------------------------------------------------------------------
